@@ -1,9 +1,26 @@
 import Rooc.Drv.C01
 import Rooc.WellFormed
+import Rooc.LinErrText
 namespace Rooc.Drv.C08
 open Rooc Sexp
 /-- C08 shares the linearizer model requests of C01. -/
-def handle (α : Type) [Arith α] [Wire α] : List Sexp → Sexp := Drv.C01.handle α
+def decErr : Sexp → Option Lin.LinErr
+  | .list [.atom "err", .atom "NonLinearExpression"] => some .nonLinear
+  | .list [.atom "err", .atom "DivisionByZero"] => some .divisionByZero
+  | .list [.atom "err", .atom "EmptyAggregation", .str k] => some (.emptyAggregation k)
+  | .list [.atom "err", .atom "VarAlreadyDeclared", .str n] => some (.varAlreadyDeclared n)
+  | .list [.atom "err", .atom "UnimplementedExpression"] => some .unimplemented
+  | .list [.atom "err", .atom "NonBinaryLogicOperand"] => some .nonBinaryLogicOperand
+  | .list [.atom "err", .atom "MissingFiniteBounds", .list vs] =>
+    (optAll (vs.map fun | .str s => some s | _ => none)).map .missingFiniteBounds
+  | _ => none
+
+def handle (α : Type) [Arith α] [Wire α] : List Sexp → Sexp
+  | [.atom "linerr-display", e, .str expr, .str req, .str lo, .str hi] =>
+    match decErr e with
+    | some e => .str (e.text expr req lo hi)
+    | none => app "err" [.atom "decode"]
+  | r => Drv.C01.handle α r
 
 /-- exact oracle: the well-formedness predicate on the implementation's linear model. -/
 def oracle : List Sexp → Sexp
@@ -11,9 +28,11 @@ def oracle : List Sexp → Sexp
     match (Model.dec m : Option (Model (Ext Rat))), (LinModel.dec lm : Option (LinModel (Ext Rat))) with
     | some m, some lm =>
       let r := WF.report m lm
-      match r.failing with
+      let failing := r.failing ++ (if WF.occurringPresent m lm then [] else ["occurring-variable-missing"]) ++
+        (if WF.domainOrdered m lm then [] else ["domain-not-ordered"])
+      match failing with
       | [] => app "ok" []
-      | f :: _ => app "violation" [.atom f, .list (r.failing.map .atom)]
+      | f :: _ => app "violation" [.atom f, .list (failing.map .atom)]
     | _, _ => app "err" [.atom "decode"]
   | _ => app "err" [.atom "bad-request"]
 end Rooc.Drv.C08
